@@ -6,7 +6,7 @@ CONSTANTS
   MaxOps = 100000
   Window = 0
   BlockBudget = 1000
-  ActiveTxs = {"t1", "t2", "t3", "t4", "t5", "t6", "t7", "t8", "p1", "p2", "p3", "p4", "p5", "p6", "p7", "p8", "p9", "p10", "w1", "w2", "w3", "w4", "w5", "w6", "c1", "p11", "x1", "x2", "b1", "b2", "b3", "s4"}
+  ActiveTxs = {"t1", "t2", "t3", "t4", "t5", "t6", "t7", "t8", "p1", "p2", "p3", "p4", "p5", "p6", "p7", "p8", "p9", "p10", "p12", "w1", "w2", "w3", "w4", "w5", "w6", "c1", "p11", "x1", "x2", "b1", "b2", "b3", "s4"}
   KF_FrozenLedgerHeight = FALSE
   KF_PlayKeepsStaleReader = FALSE
   KF_PoolOrderAntiDep = FALSE
